@@ -134,8 +134,7 @@ Section Crypto.
       unfold ct. rewrite Hcorrect, Hk. reflexivity.
     - exact alg_name_utf8.
     - exact alg_name_short.
-    - unfold two32 in *. repeat split; cbn [a_version a_mem a_par a_it a_salt]; try lia; try assumption.
-      vm_compute. reflexivity.
+    - unfold argon_wf, two32 in *. cbn [a_version a_mem a_par a_it a_salt]. repeat split; try lia; reflexivity.
     - rewrite app_length. exact Hb.
   Qed.
 
@@ -190,8 +189,7 @@ Section Crypto.
     - inversion P; subst e. cbn [e_blob]. rewrite <- Hn. rewrite skipn_app, Nat.sub_diag, skipn_all, skipn_O. reflexivity.
     - exact alg_name_utf8.
     - exact alg_name_short.
-    - unfold two32 in *. repeat split; cbn [a_version a_mem a_par a_it a_salt]; try lia; try assumption.
-      vm_compute. reflexivity.
+    - unfold argon_wf, two32 in *. cbn [a_version a_mem a_par a_it a_salt]. repeat split; try lia; reflexivity.
     - rewrite app_length. exact Hb.
   Qed.
 
@@ -258,7 +256,7 @@ Proof.
   destruct fn as [|[[|[]|]|[|[]|]|]]; try discriminate R;
     repeat match type of R with
     | (if beq ?x ?y then _ else _) = Some _ => let E := fresh "E" in destruct (beq x y) eqn:E; [apply beq_eq in E|]
-    end; try discriminate R; inversion R; subst; cbn; repeat split; reflexivity.
+    end; try discriminate R; inversion R; subst; cbn; repeat split; first [reflexivity | congruence].
 Qed.
 
 (* the acceptance matrix, swept completely: every function x every key banner *)
@@ -280,12 +278,16 @@ Definition toy_dec (k n c : list N) : option (list N) :=
   let p := frame k ++ frame n in
   if beq (firstn (length p) c) p then Some (skipn (length p) c) else None.
 
+Lemma firstn_len_app (a x : list N) : firstn (length a) (a ++ x) = a.
+Proof. rewrite firstn_app, Nat.sub_diag, firstn_all, firstn_O, app_nil_r. reflexivity. Qed.
+Lemma skipn_len_app (a x : list N) : skipn (length a) (a ++ x) = x.
+Proof. rewrite skipn_app, Nat.sub_diag, skipn_all, skipn_O. reflexivity. Qed.
+
 Lemma frame_inj a x b y : frame a ++ x = frame b ++ y -> a = b /\ x = y.
 Proof.
   unfold frame. cbn [app]. intros H. inversion H as [[L E]]. apply Nat2N.inj in L.
   assert (a = b).
-  { rewrite <- (firstn_all a), <- (firstn_all b). rewrite <- L at 2.
-    rewrite <- (firstn_app_exact a x) at 1. rewrite <- (firstn_app_exact b y). rewrite L at 1. now rewrite E. }
+  { pose proof (firstn_len_app a x) as Fa. rewrite E, L, firstn_len_app in Fa. now symmetry. }
   subst. split; [reflexivity|]. now apply app_inv_head in E.
 Qed.
 
@@ -293,7 +295,7 @@ Lemma toy_meets_assumptions : aead_correct toy_enc toy_dec /\ aead_integrity toy
 Proof.
   repeat split.
   - intros k n m. unfold toy_dec, toy_enc. rewrite app_assoc.
-    rewrite firstn_app_exact. rewrite beq_refl. now rewrite skipn_app_exact.
+    rewrite firstn_len_app. rewrite beq_refl. now rewrite skipn_len_app.
   - intros k n c m. unfold toy_dec, toy_enc.
     destruct (beq (firstn (length (frame k ++ frame n)) c) (frame k ++ frame n)) eqn:E; [|discriminate].
     apply beq_eq in E. intros H. inversion H; subst. rewrite app_assoc. rewrite <- E at 1. now rewrite firstn_skipn.
@@ -309,6 +311,6 @@ Qed.
 
 (* ... and the honest inputs exist: an Ed25519 key under the toy cryptography *)
 Example honest_example :
-  honest toy_kdf toy_enc 0 (repeat 7 64) 8 1 1 (repeat 1 32) (repeat 2 12)
+  honest 0 (repeat 7 64) 8 1 1 (repeat 1 32) (repeat 2 12)
          (toy_enc (toy_kdf [112] (repeat 1 32) 1 8 1) (repeat 2 12) (repeat 7 64)).
 Proof. unfold honest. repeat split; try (now left); vm_compute; try reflexivity; try discriminate; lia. Qed.
